@@ -89,7 +89,37 @@ func genC05(t *rapid.T) c05Case {
 	var chose []int // sessions established with a CHOOSE F-TEID
 	for i := 0; i < n; i++ {
 		live := len(liveSet)
-		switch rapid.SampledFrom([]string{"est", "est", "estbad", "estbad", "modrej", "mod", "del", "strip", "reassoc", "modteid"}).Draw(t, "k") {
+		kinds := []string{"est", "est", "estbad", "estbad", "modrej", "mod", "del", "strip", "reassoc", "modteid"}
+		if c.UP4 {
+			kinds = append(kinds, "estp4", "modp4", "modp4")
+		}
+		switch rapid.SampledFrom(kinds).Draw(t, "k") {
+		case "estp4":
+			// an establishment one of whose P4Runtime writes fails (or none, when k lies beyond its last write): it
+			// is rejected after identifiers were allocated and entries written; all of that must be given back
+			if live >= capN {
+				continue
+			}
+			op := c05Sess(sess, rapid.Bool().Draw(t, "alloc"), rapid.Bool().Draw(t, "choose"), "")
+			op.Note = "p4"
+			op.Extra = map[string]any{"p4fail": rapid.IntRange(1, 7).Draw(t, "failk"), "p4code": rapid.SampledFrom([]string{"UNAVAILABLE", "INVALID_ARGUMENT", "RESOURCE_EXHAUSTED"}).Draw(t, "code")}
+			c.Ops = append(c.Ops, op)
+			liveSet[sess] = true
+			sess++
+		case "modp4":
+			// a modification (handover to a new gNB, or the UE going idle) one of whose P4Runtime writes fails: the
+			// request is rejected, the session keeps its old rules, and whatever the attempt acquired on the way (a
+			// tunnel peer for the new gNB, say) must not outlive the session
+			if sess == 0 {
+				continue
+			}
+			si := rapid.IntRange(0, sess-1).Draw(t, "si")
+			nf := model.FAR{ID: 2, Action: model.ActFORW, HasFwd: true, DstIf: model.IfAccess, HasOHC: true, TEID: uint32(900 + i), Peer: rapid.SampledFrom([]string{"198.18.7.7", "198.18.7.8", "198.18.4.2"}).Draw(t, "p4peer")}
+			if rapid.IntRange(0, 2).Draw(t, "idle") == 0 {
+				nf = model.FAR{ID: 2, Action: rapid.SampledFrom([]uint8{model.ActBUFF | model.ActNOCP, model.ActDROP}).Draw(t, "idleaction"), HasFwd: true}
+			}
+			c.Ops = append(c.Ops, model.Op{Kind: "mod", Peer: 0, Seq: uint32(300 + i), Sess: si, Note: "any", UpdFARs: []model.FAR{nf},
+				Extra: map[string]any{"p4fail": rapid.IntRange(1, 4).Draw(t, "failk"), "p4code": rapid.SampledFrom([]string{"UNAVAILABLE", "INVALID_ARGUMENT", "RESOURCE_EXHAUSTED"}).Draw(t, "code")}})
 		case "modteid":
 			// Update PDR of the uplink PDR: the control plane restates it with an explicit F-TEID - the TEID the UP
 			// function chose for it (filled in at run time), or, on UP4, one of its own. A chosen TEID stays the
@@ -298,7 +328,30 @@ func runC05(c c05Case, ev *Ev) error {
 	}
 	defer run.Close()
 	rejected := 0
+	faulted := false
 	for i, op := range c.Ops {
+		if fk, ok := op.Extra["p4fail"]; ok && r.P4 != nil {
+			k := 0
+			switch v := fk.(type) {
+			case int:
+				k = v
+			case float64:
+				k = int(v)
+			}
+			code, _ := op.Extra["p4code"].(string)
+			r.P4.Arm(map[int]string{k: code})
+			o := run.Exec(op)
+			r.P4.Arm(nil)
+			if o.NoResp || !o.Alive {
+				return fmt.Errorf("op %d (%s with failing P4Runtime write %d): no response (alive=%v)", i, op.Kind, k, o.Alive)
+			}
+			if !o.Accepted {
+				rejected++
+				faulted = true
+				ev.Label(op.Kind + "/rejected-by-p4-write-failure")
+			}
+			continue
+		}
 		if how, _ := op.Extra["teid"].(string); how != "" {
 			s := run.Sess[op.Sess]
 			var cur *model.PDR
@@ -357,7 +410,8 @@ func runC05(c c05Case, ev *Ev) error {
 	}
 	if err := c05Invariant(r, run, c, "before the ending"); err != nil {
 		// intermediate divergence is reported under the ending it precedes only when the history had no half-way rejection
-		hasRej := false
+		// (the same goes for a request rejected because a switch write failed: C04 speaks about accepted requests)
+		hasRej := faulted
 		for _, op := range c.Ops {
 			hasRej = hasRej || (op.Kind == "mod" && len(op.RemPDRs) > 0)
 		}
@@ -491,7 +545,7 @@ func runC05(c c05Case, ev *Ev) error {
 
 func TestC05(t *testing.T) {
 	ev := newEv("C05")
-	ev.Rule = "fresh agent per case with UE-IP allocation on a /29 or /30 pool; prefix history of accepted and rejected establishments/modifications (rejected after allocation: bad later PDR/FAR, wrong Node ID; modification rejected half-way), then one of the endings {Session Deletion, Association Release, Session Report Response 'context not found', peer silence past read_timeout, unanswered heartbeats}, then pool-size+2 attach/detach cycles; after the ending and after the cycles: table image of the live sessions only, pfcp_sessions gauge = live sessions, UE IP pool and F-TEID occupancy = what live sessions hold (hook), ended sessions unknown; non-trivial = at least one rejected request before an ending other than plain deletion; distinct by case"
+	ev.Rule = "fresh agent per case with UE-IP allocation on a /29 or /30 pool; prefix history of accepted and rejected establishments/modifications (rejected after allocation: bad later PDR/FAR, wrong Node ID; modification rejected half-way; on UP4 establishments and Update FAR modifications whose k-th P4Runtime write fails), then one of the endings {Session Deletion, Association Release, Session Report Response 'context not found', peer silence past read_timeout, unanswered heartbeats}, then pool-size+2 attach/detach cycles; after the ending and after the cycles: table image of the live sessions only, pfcp_sessions gauge = live sessions, UE IP pool and F-TEID occupancy = what live sessions hold (hook), ended sessions unknown; non-trivial = at least one rejected request before an ending other than plain deletion; distinct by case"
 	ev.Assume = []string{"timeout endings wait up to 15 s (>= 10x nominal) for the agent to declare the peer dead"}
 	runProp(t, ev, "ending", true, genC05, runC05)
 }
